@@ -214,11 +214,23 @@ Qed.
 (* ---------------------------------------------------------------- decoder tables *)
 Definition nat_seq_N (n : nat) : list N := map N.of_nat (seq 0 n).
 
+(* does GSM 03.38 put a character at septet s (prefix [] : default table, s <> ESC; prefix [ESC] : extension table)? *)
+Definition has_char (prefix : list N) (s : N) : bool :=
+  match prefix with
+  | [] => negb (s =? gsm_esc) && match find_char s gsm_default with Some _ => true | None => false end
+  | _ => match find_char s gsm_extension with Some _ => true | None => false end
+  end.
 Definition dec_row_ok (prefix : list N) (x : N * bytes * N * list N) : bool :=
   let '(s, src, cls, rs) := x in
-  (* the octets are the packed septets, and the model decodes them as the code did *)
+  (* the octets are the packed septets, and the model decodes them as the code did: exactly where the
+     standard has a character; where it has none (a lone ESC, ESC + a code without an extension character)
+     C08 only asks for "a value or an error", so a more lenient decoder is not a mismatch *)
   out_is beq_bytes (pack_septets (repeat 0 (blocks (7 * length (prefix ++ [s])))) (prefix ++ [s])) 0 src
-  && out_is beq_runes (decode src) cls rs.
+  && (if has_char prefix s then out_is beq_runes (decode src) cls rs else dec_obs_ok src cls rs).
+
+Lemma has_char_counts :
+  length (filter (has_char []) (nat_seq_N 128)) = 127%nat /\ length (filter (has_char [gsm_esc]) (nat_seq_N 128)) = 10%nat.
+Proof. vm_compute. split; reflexivity. Qed.
 
 Lemma g7_dec_single_keys : map (fun x => fst (fst (fst x))) g7_dec_single = nat_seq_N 128.
 Proof. vm_compute. reflexivity. Qed.
@@ -244,21 +256,32 @@ Proof.
   apply N.eqb_eq in H1. apply beq_bytes_eq in H2. congruence.
 Qed.
 
+(* where the standard has no character the property asks for a value or an error, nothing more *)
+Definition value_or_error (cls : N) : bool := (cls =? 0) || (cls =? 1).
 Lemma g7_dec_single_spec_rows :
-  forallb (fun x => let '(s, _, cls, rs) := x in (s =? 9) || pair_eqb (cls, rs) (spec_single s)) g7_dec_single = true.
+  forallb (fun x => let '(s, _, cls, rs) := x in
+             (s =? 9) || (if has_char [] s then pair_eqb (cls, rs) (spec_single s) else value_or_error cls)) g7_dec_single = true.
 Proof. vm_compute. reflexivity. Qed.
 Lemma g7_dec_escape_spec_rows :
-  forallb (fun x => let '(s, _, cls, rs) := x in pair_eqb (cls, rs) (spec_escape s)) g7_dec_escape = true.
+  forallb (fun x => let '(s, _, cls, rs) := x in
+             if has_char [gsm_esc] s then pair_eqb (cls, rs) (spec_escape s) else value_or_error cls) g7_dec_escape = true.
 Proof. vm_compute. reflexivity. Qed.
 
-Theorem g7_dec_single_spec s src cls rs : In (s, src, cls, rs) g7_dec_single -> s <> 9 -> (cls, rs) = spec_single s.
+Lemma value_or_error_prop cls : value_or_error cls = true -> cls = 0 \/ cls = 1.
+Proof. unfold value_or_error. intros H. apply orb_true_iff in H. destruct H as [H|H]; apply N.eqb_eq in H; auto. Qed.
+
+Theorem g7_dec_single_spec s src cls rs : In (s, src, cls, rs) g7_dec_single -> s <> 9 ->
+  (has_char [] s = true -> (cls, rs) = spec_single s) /\ (has_char [] s = false -> cls = 0 \/ cls = 1).
 Proof.
   intros I H. pose proof g7_dec_single_spec_rows as K. rewrite forallb_forall in K. apply K in I.
-  apply orb_true_iff in I. destruct I as [I|I]; [apply N.eqb_eq in I; congruence|now apply pair_eqb_eq].
+  apply orb_true_iff in I. destruct I as [I|I]; [apply N.eqb_eq in I; congruence|].
+  destruct (has_char [] s); split; intros X; try discriminate; [now apply pair_eqb_eq|now apply value_or_error_prop].
 Qed.
-Theorem g7_dec_escape_spec s src cls rs : In (s, src, cls, rs) g7_dec_escape -> (cls, rs) = spec_escape s.
+Theorem g7_dec_escape_spec s src cls rs : In (s, src, cls, rs) g7_dec_escape ->
+  (has_char [gsm_esc] s = true -> (cls, rs) = spec_escape s) /\ (has_char [gsm_esc] s = false -> cls = 0 \/ cls = 1).
 Proof.
-  intros I. pose proof g7_dec_escape_spec_rows as K. rewrite forallb_forall in K. apply K in I. now apply pair_eqb_eq.
+  intros I. pose proof g7_dec_escape_spec_rows as K. rewrite forallb_forall in K. apply K in I.
+  destruct (has_char [gsm_esc] s); split; intros X; try discriminate; [now apply pair_eqb_eq|now apply value_or_error_prop].
 Qed.
 Lemma g7_dec_single_d16 : exists src, In (9, src, 0, [0xE7]) g7_dec_single /\ spec_single 9 = (0, [0xC7]).
 Proof. exists [9]. split; [vm_compute; tauto|reflexivity]. Qed.
@@ -280,24 +303,6 @@ Proof.
   pose proof width_check as K. rewrite forallb_forall in K. apply K in I. rewrite Hs in I.
   apply andb_true_iff in I. destruct I as [I1 I2]. apply Nat.eqb_eq in I1, I2. congruence.
 Qed.
-
-(* ---------------------------------------------------------------- before the fix: commits *)
-Lemma d13_before_fix :
-  fwd_build false 0 (reverse_lookup ++ repeat 0 128) 0 None = Some 255 /\   (* U+0000 -> septet 255, packs as 0x7F *)
-  forward_lookup_legacy 0xA0 = Some esc /\                                    (* U+00A0 -> a lone escape *)
-  forward_lookup 0 = None /\ forward_lookup 0xA0 = None.
-Proof. vm_compute. repeat split. Qed.
-
-Lemma d14_before_fix :
-  let s := [27; 60; 27; 60; 97; 98; 99; 100; 101; 102; 103; 104; 105; 106; 107; 13] in  (* "[[abcdefghijk\r" *)
-  pack_septets_legacy (repeat 0 14%nat) s = Panic /\ pack_septets (repeat 0 14%nat) s <> Panic.
-Proof. vm_compute. split; [reflexivity|discriminate]. Qed.
-
-Lemma d15_before_fix :
-  dec_finish_legacy [97; 98; 13] = [97; 98] /\ dec_finish_legacy [97; 98; 13; 99] = [97; 98; 13] /\
-  (exists o, encode [97; 98; 13] = Ok o /\ decode o = Ok [97; 98; 13]) /\
-  (exists o, encode [97; 98; 13; 99] = Ok o /\ decode o = Ok [97; 98; 13; 99]).
-Proof. vm_compute. repeat split; eexists; split; reflexivity. Qed.
 
 (* ---------------------------------------------------------------- statements assembled for Properties/C08.v *)
 Theorem encode_length_spec t S out : to_septets t = Ok S -> encode t = Ok out ->
@@ -338,14 +343,15 @@ Theorem g7_code_alphabet_refuted : exists r x, scalar r /\ g7_find r g7_runs = S
 Proof. exists 0xC7. eexists. split; [left; reflexivity|]. split; [vm_compute; reflexivity|]. vm_compute. discriminate. Qed.
 
 Theorem g7_dec_single_model_row s src cls rs : In (s, src, cls, rs) g7_dec_single ->
-  out_is beq_runes (decode src) cls rs = true.
+  if has_char [] s then out_is beq_runes (decode src) cls rs = true else dec_obs_ok src cls rs = true.
 Proof.
   intros I. pose proof g7_dec_single_model as K. rewrite forallb_forall in K. apply K in I.
-  unfold dec_row_ok in I. apply andb_true_iff in I. tauto.
+  unfold dec_row_ok in I. apply andb_true_iff in I. destruct I as [_ I]. now destruct (has_char [] s).
 Qed.
 Theorem g7_dec_escape_model_row s src cls rs : In (s, src, cls, rs) g7_dec_escape ->
-  out_is beq_runes (decode src) cls rs = true.
+  if has_char [gsm_esc] s then out_is beq_runes (decode src) cls rs = true else dec_obs_ok src cls rs = true.
 Proof.
   intros I. pose proof g7_dec_escape_model as K. rewrite forallb_forall in K. apply K in I.
-  unfold dec_row_ok in I. apply andb_true_iff in I. tauto.
+  unfold dec_row_ok in I. apply andb_true_iff in I. destruct I as [_ I]. change (has_char [esc] s) with (has_char [gsm_esc] s) in I.
+  now destruct (has_char [gsm_esc] s).
 Qed.
